@@ -70,6 +70,7 @@ def plan(tier):
         jobs.append(("c14-O1-asan", ["--part", "guard", "--lmax", "39"], True))
         jobs.append(("c14-O1-asan", ["--part", "fs"], True))
         jobs.append(("c14-O1-asan", ["--part", "fslong"], True))
+        jobs.append(("c14-O1-asan", ["--part", "fswide"], True))
         for k in range(2):
             jobs.append(("c14-O1-asan", ["--part", "long", "--lmax", "4200", "--lmain", "39", "--shard", str(k), "2"], True))
         return jobs
@@ -77,6 +78,7 @@ def plan(tier):
     jobs.append(("c14-O1-asan", ["--part", "guard", "--lmax", "71", "--wide-seeds", "1"], True))
     jobs.append(("c14-O1-asan", ["--part", "fs"], True))
     jobs.append(("c14-O1-asan", ["--part", "fslong"], True))
+    jobs.append(("c14-O1-asan", ["--part", "fswide"], True))
     n = 14
     for k in range(n):
         jobs.append(("c14-O1-asan", ["--part", "long", "--lmax", "16500", "--lmain", "71", "--wide-seeds", "1", "--shard", str(k), str(n)], True))
@@ -92,6 +94,7 @@ def plan(tier):
         jobs.append((tag, ["--part", "guard", "--lmax", "39"], False))
         jobs.append((tag, ["--part", "fs"], False))
         jobs.append((tag, ["--part", "fslong"], False))
+        jobs.append((tag, ["--part", "fswide"], False))
         jobs.append((tag, ["--part", "long", "--lmax", "4200"], False))
     for k in range(n):   # all 256^4 four-byte keys, value only (no sanitizer), two seeds, offsets 0 and 1
         jobs.append(("c14-O2-nosan", ["--part", "full", "--len", "4", "--pairs", "1", "--two-seeds", "1", "--placements", "R", "--fills", "255",
@@ -104,11 +107,13 @@ def _sort_key(v):
     # the shortest / first case of every signature first (main part before guard pages before other builds), so that the
     # counterexample that gets reported does not depend on scheduling
     head = a[0] if a else ""
-    rank = {"--one": 0, "--long-one": 0, "--guard-one": 1, "--fs-one": 2, "--fs-long-one": 2}.get(head, 3)
+    rank = {"--one": 0, "--long-one": 0, "--guard-one": 1, "--fs-one": 2, "--fs-long-one": 2, "--fsw-one": 2}.get(head, 3)
     if head == "--long-one":
         size = 2 * int(a[5])
     elif head == "--fs-long-one":
         size = 2 * int(a[1])
+    elif head == "--fsw-one":
+        size = 2 * int(a[2])
     elif rank in (0, 2):
         size = len(a[-1].strip("-"))
     else:
@@ -173,7 +178,7 @@ def run(ctx):
             own_samples.setdefault(args[1], []).extend(sub.samples)
         ctx.viols += sub.viols
     # a few samples of every part
-    for part in ("main", "long", "full", "guard", "fs", "fslong"):
+    for part in ("main", "long", "full", "guard", "fs", "fslong", "fswide"):
         for s in own_samples.get(part, [])[:3 if part == "main" else 1]:
             ctx.sample(s)
 
@@ -200,11 +205,13 @@ def run(ctx):
         "01 02 03..; FF FE FD..; ALL 256 one-byte and ALL 65536 two-byte keys} with v in {00,01,7F,80,FF} x seed {0,1,7FFFFFFF,80000000,FFFFFFFF,c70f6907,2^63,2^64-1%s} (truncated to 32 bit and "
         "de-duplicated for murmur2_x86) x placement {key ends at the last byte of an exact-size malloc block; 8 readable bytes behind the key} x start alignment 0..7 (key at offset a of a 16-aligned block) "
         "x fill of all non-key bytes {00,FF}. LONG: EVERY length 0..%d x EVERY offset 0..15 of a 16-aligned exact-size malloc block x seeds {0,c70f6907,all-ones%s} x 4 key patterns "
-        "(32-bit word counter (w+1)*2654435761 so that all 4- and 8-byte blocks differ; FF FE FD..; 00..00 80; 00 FF..FF). FULL: %s. GUARD: every length x seed x {01 02 03.., FF FF..} with the key ending / starting exactly at an inaccessible page, in a forked child. "
+        "(32-bit word counter (w+1)*2654435761 so that all 4- and 8-byte blocks differ; FF FE FD..; 00..00 80; 00 FF..FF). FULL: %s. GUARD: every length x seed x {01 02 03.., FF FF..} with the key ending / starting exactly at an inaccessible page, plus the EMPTY key described by (nullptr, 0) and by (pointer into an inaccessible page, 0) for every seed, in a forked child. "
         "Every call is compared with refs/C14_murmur_ref.hpp (byte-wise little-endian MurmurHash2 / MurmurHash64A; checked against SMHasher's 27864C1E / 1F0D3804 at start) and followed by a "
         "look at AddressSanitizer's error flag. FS: all strings of length <= 3 over {00,'a',80,FF} built 4 ways in 7 fixed-string types (capacity 3,16,55,255,256; packed, size-field, strlen layouts) must "
         "have one std::hash value; FSLONG: equal strings of EVERY length 0..400 in xbasic_fixed_string<char,400,buffer> objects constructed at offsets 0..7 of a byte array "
-        "(data() at every address mod 8) and in xbasic_fixed_string<char,400> must have one std::hash value. Plus the C01 explorer: std::hash of every reachable raw state (stale bytes included) of 4 layouts == hash of a freshly built equal string. "
+        "(data() at every address mod 8) and in xbasic_fixed_string<char,400> must have one std::hash value; FSWIDE: equal strings of EVERY length 0..64 of char16_t in capacities {8,15,16,40,255,300} x {packed, size-field} + 65536, "
+        "of char32_t and wchar_t in the same capacities (size-field layout; the packed one is ill-formed for 4-byte characters on this tree) and of char in the same capacities x {packed, size-field, strlen}, "
+        "each built 2 ways, must have one std::hash value per string. Plus the C01 explorer: std::hash of every reachable raw state (stale bytes included) of 4 layouts == hash of a freshly built equal string. "
         "evaluations = calls of a hash function (+ hash queries of the explorer). distinct_nontrivial = number of DISTINCT (function, seed, key bytes) triples with length >= 1 "
         "(contents are de-duplicated per length; the FULL part skips the contents of the MAIN part; alignments, fills and placements of one triple are NOT counted as distinct; "
         "re-runs on other builds and the explorer states are not counted), plus the non-empty strings of the FS part"
